@@ -1599,4 +1599,1122 @@ theorem armOperator_type (cc : CharClass) (σ : Lexer) (c : Char) (node : LexerO
   unfold armOperator
   simp [currentOperator, push, h]
 
+/-! ## the operator tree against the regenerated table -/
+
+/-- all nodes of the tree down to depth `fuel`, with the path leading to them -/
+def pathsFuel : Nat → LexerOperatorNode → List Char → List (List Char × LexerOperatorNode)
+  | 0, n, p => [(p, n)]
+  | f + 1, n, p => (p, n) :: n.children.flatMap (fun kc => pathsFuel f kc.2 (p ++ [kc.1]))
+
+theorem mapGet_mem {β : Type} : ∀ (m : List (Char × β)) (k : Char) (v : β), mapGet m k = some v → (k, v) ∈ m
+  | [], _, _, h => by simp [mapGet] at h
+  | (k0, v0) :: r, k, v, h => by
+    simp only [mapGet] at h
+    split at h
+    · rename_i hk
+      have : k0 = k := by simpa using hk
+      subst this
+      simp only [Option.some.injEq] at h
+      subst h; simp
+    · exact List.mem_cons_of_mem _ (mapGet_mem r k v h)
+
+theorem pathsFuel_self (f : Nat) (n : LexerOperatorNode) (p : List Char) : (p, n) ∈ pathsFuel f n p := by
+  cases f <;> simp [pathsFuel]
+
+theorem walk_mem_paths : ∀ (cs : List Char) (f : Nat) (t n : LexerOperatorNode) (p : List Char),
+    walkOperator t cs = some n → cs.length ≤ f → (p ++ cs, n) ∈ pathsFuel f t p
+  | [], f, t, n, p, h, _ => by
+    simp only [walkOperator, Option.some.injEq] at h
+    subst h; simpa using pathsFuel_self f t p
+  | c :: r, 0, t, n, p, h, hl => by simp at hl
+  | c :: r, f + 1, t, n, p, h, hl => by
+    simp only [walkOperator] at h
+    cases hg : t.getChild c with
+    | none => rw [hg] at h; cases h
+    | some ch =>
+      rw [hg] at h
+      have hmem := mapGet_mem _ _ _ hg
+      have := walk_mem_paths r f ch n (p ++ [c]) h (by simpa using hl)
+      simp only [pathsFuel, List.mem_cons, List.mem_flatMap]
+      right
+      exact ⟨(c, ch), hmem, by simpa [List.append_assoc] using this⟩
+
+theorem walk_append : ∀ (a b : List Char) (t n : LexerOperatorNode), walkOperator t (a ++ b) = some n →
+    ∃ m, walkOperator t a = some m ∧ walkOperator m b = some n
+  | [], b, t, n, h => ⟨t, rfl, h⟩
+  | c :: a, b, t, n, h => by
+    simp only [List.cons_append, walkOperator] at h ⊢
+    cases hg : t.getChild c with
+    | none => rw [hg] at h; cases h
+    | some ch => rw [hg] at h; exact walk_append a b ch n h
+
+/-- the tree is at most 4 deep -/
+def depthCheck : Bool :=
+  (pathsFuel 4 theTree []).all fun pn => pn.1.length < 4 || pn.2.children.isEmpty
+
+theorem depthCheck_true : depthCheck = true := by decide +kernel
+
+theorem walk_length_le (cs : List Char) (n : LexerOperatorNode) (h : walkOperator theTree cs = some n) :
+    cs.length ≤ 4 := by
+  by_cases hl : cs.length ≤ 4
+  · exact hl
+  · exfalso
+    have hsplit : cs = cs.take 4 ++ cs.drop 4 := (List.take_append_drop 4 cs).symm
+    rw [hsplit] at h
+    obtain ⟨m, hm, hn⟩ := walk_append _ _ _ _ h
+    have hlen : (cs.take 4).length = 4 := by simp; omega
+    have hmem := walk_mem_paths (cs.take 4) 4 theTree m [] hm (by omega)
+    have hd := depthCheck_true
+    unfold depthCheck at hd
+    rw [List.all_eq_true] at hd
+    have := hd _ hmem
+    simp only [List.nil_append, hlen, Nat.lt_irrefl, decide_false, Bool.false_or] at this
+    cases hdrop : cs.drop 4 with
+    | nil => have : (cs.drop 4).length = 0 := by rw [hdrop]; rfl
+             simp at this; omega
+    | cons x r =>
+      rw [hdrop] at hn
+      simp only [walkOperator, LexerOperatorNode.getChild] at hn
+      have hch : m.children = [] := by simpa [List.isEmpty_iff] using this
+      rw [hch] at hn
+      simp [mapGet] at hn
+
+/-- every typed node of the tree is an entry of the regenerated table -/
+def typedNodesInTable : Bool :=
+  (pathsFuel 4 theTree []).all fun pn =>
+    match pn.2.tokenType with
+    | none => true
+    | some ty => Garnish.Gen.LexTables.operatorChars.contains (pn.1, ty)
+
+theorem typedNodesInTable_true : typedNodesInTable = true := by decide +kernel
+
+/-- soundness of the tree: what it recognises with a type is a spelling of the table with that type -/
+theorem tree_sound (cs : List Char) (n : LexerOperatorNode) (ty : Gen.TokenType)
+    (h : walkOperator theTree cs = some n) (hty : n.tokenType = some ty) :
+    (cs, ty) ∈ Garnish.Gen.LexTables.operatorChars := by
+  have hmem := walk_mem_paths cs 4 theTree n [] h (walk_length_le cs n h)
+  have hc := typedNodesInTable_true
+  unfold typedNodesInTable at hc
+  rw [List.all_eq_true] at hc
+  have := hc _ hmem
+  simp only [List.nil_append, hty] at this
+  simpa using this
+
+/-- every prefix of a spelling of the table is a path of the tree -/
+theorem table_prefix_path (sp : List Char) (ty : Gen.TokenType) (a b : List Char)
+    (h : (sp, ty) ∈ Garnish.Gen.LexTables.operatorChars) (hab : sp = a ++ b) :
+    ∃ m, walkOperator theTree a = some m := by
+  have hr := tableRecognised_true
+  unfold tableRecognised at hr
+  rw [List.all_eq_true] at hr
+  have := hr _ h
+  cases hw : walkOperator theTree sp with
+  | none => rw [hw] at this; cases this
+  | some n =>
+    rw [hab] at hw
+    obtain ⟨m, hm, _⟩ := walk_append a b theTree n hw
+    exact ⟨m, hm⟩
+
+/-! ## second invariant: state, pending token type and allowed characters -/
+
+/-- token types of the operator table -/
+def isOpType (ty : Gen.TokenType) : Bool := Garnish.Gen.LexTables.operatorChars.any (fun p => p.2 == ty)
+
+@[simp] theorem isOpType_whitespace : isOpType .whitespace = false := by decide
+@[simp] theorem isOpType_subexpression : isOpType .subexpression = false := by decide
+@[simp] theorem isOpType_number : isOpType .number = false := by decide
+@[simp] theorem isOpType_identifier : isOpType .identifier = false := by decide
+@[simp] theorem isOpType_symbol : isOpType .symbol = false := by decide
+@[simp] theorem isOpType_suffixIdentifier : isOpType .suffixIdentifier = false := by decide
+@[simp] theorem isOpType_prefixIdentifier : isOpType .prefixIdentifier = false := by decide
+@[simp] theorem isOpType_infixIdentifier : isOpType .infixIdentifier = false := by decide
+@[simp] theorem isOpType_annotation : isOpType .annotation = false := by decide
+@[simp] theorem isOpType_lineAnnotation : isOpType .lineAnnotation = false := by decide
+@[simp] theorem isOpType_charList : isOpType .charList = false := by decide
+@[simp] theorem isOpType_byteList : isOpType .byteList = false := by decide
+
+/-- literal / comment token types: their text may contain anything -/
+def isLitType (ty : Gen.TokenType) : Bool := ty == .charList || ty == .byteList || ty == .lineAnnotation
+
+def isLitState (s : LexingState) : Bool :=
+  s == .charList || s == .startCharList || s == .byteList || s == .startByteList || s == .lineAnnotation
+
+/-- `c` occurs in some path of the operator tree (a spelling of the table or a prefix of one) -/
+def InOperatorPath (c : Char) : Prop := ∃ cs, c ∈ cs ∧ (walkOperator theTree cs).isSome = true
+
+/-- `c` can start or continue some token: alphanumeric, numeric, ASCII whitespace, one of ``_ : . ` @ " '``,
+or a character of an operator spelling -/
+def CanStartOrContinue (cc : CharClass) (c : Char) : Prop :=
+  cc.isAlphanumeric c = true ∨ cc.isNumeric c = true ∨ isAsciiWhitespace c = true ∨
+  c = '_' ∨ c = ':' ∨ c = '.' ∨ c = '`' ∨ c = '@' ∨ c = '"' ∨ c = '\'' ∨ InOperatorPath c
+
+theorem ok_alnum {cc : CharClass} {c : Char} (h : cc.isAlphanumeric c = true) : CanStartOrContinue cc c := Or.inl h
+theorem ok_num {cc : CharClass} {c : Char} (h : cc.isNumeric c = true) : CanStartOrContinue cc c := Or.inr (Or.inl h)
+theorem ok_ws {cc : CharClass} {c : Char} (h : isAsciiWhitespace c = true) : CanStartOrContinue cc c :=
+  Or.inr (Or.inr (Or.inl h))
+theorem ok_under (cc : CharClass) : CanStartOrContinue cc '_' := by simp [CanStartOrContinue]
+theorem ok_colon (cc : CharClass) : CanStartOrContinue cc ':' := by simp [CanStartOrContinue]
+theorem ok_dot (cc : CharClass) : CanStartOrContinue cc '.' := by simp [CanStartOrContinue]
+theorem ok_backtick (cc : CharClass) : CanStartOrContinue cc '`' := by simp [CanStartOrContinue]
+theorem ok_at (cc : CharClass) : CanStartOrContinue cc '@' := by simp [CanStartOrContinue]
+theorem ok_path {cc : CharClass} {c : Char} (h : InOperatorPath c) : CanStartOrContinue cc c := by
+  simp [CanStartOrContinue, h]
+theorem ok_nua {cc : CharClass} {c : Char} (h : (cc.isNumeric c || c == '_' || cc.isAlphanumeric c) = true) :
+    CanStartOrContinue cc c := by
+  simp only [Bool.or_eq_true, beq_iff_eq] at h
+  rcases h with (h | h) | h
+  · exact ok_num h
+  · subst h; exact ok_under cc
+  · exact ok_alnum h
+theorem ok_identChar {cc : CharClass} {c : Char} (h : isIdentifierChar cc c = true) : CanStartOrContinue cc c := by
+  simp only [isIdentifierChar, Bool.or_eq_true, beq_iff_eq] at h
+  rcases h with (h | h) | h
+  · exact ok_alnum h
+  · subst h; exact ok_under cc
+  · subst h; exact ok_colon cc
+theorem ok_blank {cc : CharClass} {c : Char} (h : c = ' ' ∨ c = '\t') : CanStartOrContinue cc c := by
+  rcases h with rfl | rfl <;> exact ok_ws (by decide)
+
+theorem ok_snoc {cc : CharClass} {cs : List Char} {c : Char} (h : ∀ x ∈ cs, CanStartOrContinue cc x)
+    (hc : CanStartOrContinue cc c) : ∀ x ∈ cs ++ [c], CanStartOrContinue cc x := by
+  intro x hx
+  simp only [List.mem_append, List.mem_singleton] at hx
+  rcases hx with hx | rfl
+  · exact h x hx
+  · exact hc
+
+theorem path_chars_ok {cc : CharClass} {cs : List Char} {n : LexerOperatorNode}
+    (h : walkOperator theTree cs = some n) : ∀ x ∈ cs, CanStartOrContinue cc x :=
+  fun x hx => ok_path ⟨cs, hx, by simp [h]⟩
+
+/-- relation between the state, the pending token type and the pending characters -/
+structure Typed (cc : CharClass) (σ : Lexer) : Prop where
+  op : σ.state = .operator → ∃ node, walkOperator theTree σ.currentCharacters = some node ∧
+        σ.currentTokenType = node.tokenType
+  nonOp : σ.state ≠ .operator → σ.state ≠ .noToken → ∃ ty, σ.currentTokenType = some ty ∧ isOpType ty = false
+  lit : isLitState σ.state = true → ∃ ty, σ.currentTokenType = some ty ∧ isLitType ty = true
+  chars : isLitState σ.state = false → ∀ c ∈ σ.currentCharacters, CanStartOrContinue cc c
+
+/-- what is known about an emitted token -/
+structure TokOk (cc : CharClass) (text : List Char) (ty : Gen.TokenType) : Prop where
+  op : isOpType ty = true → ∃ node, walkOperator theTree text = some node ∧ node.tokenType = some ty
+  chars : isLitType ty = false → ∀ c ∈ text, CanStartOrContinue cc c
+
+/-- an arm that ends the token (`start_new`): the token about to be emitted is fine, and an operator token is ended
+by a character `c` that is not part of it and continues no path of the tree -/
+def EmitOk (cc : CharClass) (σ1 : Lexer) (c : Char) : Prop :=
+  ∀ ty, σ1.currentTokenType = some ty →
+    TokOk cc σ1.currentCharacters ty ∧
+    (isOpType ty = true → walkOperator theTree (σ1.currentCharacters ++ [c]) = none ∧ σ1.shouldCreate = true)
+
+def ArmTyped (cc : CharClass) (c : Char) (p : Lexer × Bool) : Prop :=
+  (p.2 = false → Typed cc p.1) ∧ (p.2 = true → EmitOk cc p.1 c)
+
+theorem typed_nonOp_emit {cc : CharClass} {σ1 : Lexer} {c : Char} {ty0 : Gen.TokenType}
+    (hty : σ1.currentTokenType = some ty0) (hno : isOpType ty0 = false)
+    (hch : isLitType ty0 = false → ∀ x ∈ σ1.currentCharacters, CanStartOrContinue cc x) : EmitOk cc σ1 c := by
+  intro ty h
+  rw [hty] at h
+  simp only [Option.some.injEq] at h
+  subst h
+  exact ⟨⟨fun h => (by rw [hno] at h; cases h), hch⟩, fun h => (by rw [hno] at h; cases h)⟩
+
+theorem Typed.mkPlain {cc : CharClass} {σ1 : Lexer} (hs1 : σ1.state ≠ .operator) (hl : isLitState σ1.state = false)
+    (ty : Gen.TokenType) (hty : σ1.currentTokenType = some ty) (hno : isOpType ty = false)
+    (hch : ∀ x ∈ σ1.currentCharacters, CanStartOrContinue cc x) : Typed cc σ1 :=
+  ⟨fun h => absurd h hs1, fun _ _ => ⟨ty, hty, hno⟩, fun h => (by rw [hl] at h; cases h), fun _ => hch⟩
+
+theorem Typed.mkLit {cc : CharClass} {σ1 : Lexer} (hs1 : σ1.state ≠ .operator) (hl : isLitState σ1.state = true)
+    (ty : Gen.TokenType) (hty : σ1.currentTokenType = some ty) (hno : isOpType ty = false)
+    (hlt : isLitType ty = true) : Typed cc σ1 :=
+  ⟨fun h => absurd h hs1, fun _ _ => ⟨ty, hty, hno⟩, fun _ => ⟨ty, hty, hlt⟩, fun h => (by rw [hl] at h; cases h)⟩
+
+theorem Typed.mkOp {cc : CharClass} {σ1 : Lexer} (hs1 : σ1.state = .operator) (node : LexerOperatorNode)
+    (hw : walkOperator theTree σ1.currentCharacters = some node) (hty : σ1.currentTokenType = node.tokenType) :
+    Typed cc σ1 :=
+  ⟨fun _ => ⟨node, hw, hty⟩, fun h => absurd hs1 h, fun h => (by rw [hs1] at h; simp [isLitState] at h),
+   fun _ => path_chars_ok hw⟩
+
+theorem Typed.noToken {cc : CharClass} {σ1 : Lexer} (hs1 : σ1.state = .noToken) (hch : σ1.currentCharacters = []) :
+    Typed cc σ1 :=
+  ⟨fun h => (by rw [hs1] at h; cases h), fun _ h => absurd hs1 h, fun h => (by rw [hs1] at h; simp [isLitState] at h),
+   fun _ => (by rw [hch]; simp)⟩
+
+theorem armNumber_typed (cc : CharClass) (σ : Lexer) (c : Char) (hs : σ.state = .number) (ht : Typed cc σ) :
+    ArmTyped cc c (armNumber cc σ c) := by
+  obtain ⟨ty, hty, hno⟩ := ht.nonOp (by rw [hs]; decide) (by rw [hs]; decide)
+  have hch := ht.chars (by rw [hs]; rfl)
+  unfold armNumber
+  split
+  · rename_i h
+    exact ⟨fun _ => Typed.mkPlain (by simp [hs]) (by simp [hs, isLitState]) ty hty hno (ok_snoc hch (ok_nua h)),
+      fun h => by simp at h⟩
+  · split
+    · rename_i h
+      have : c = '.' := by simp at h; exact h.1
+      subst this
+      exact ⟨fun _ => Typed.mkPlain (by simp) (by simp [isLitState]) .number rfl (by simp) (ok_snoc hch (ok_dot cc)),
+        fun h => by simp at h⟩
+    · exact ⟨fun h => by simp at h, fun _ => typed_nonOp_emit hty hno (fun _ => hch)⟩
+
+theorem armIdentifier_typed (cc : CharClass) (σ : Lexer) (c : Char) (hs : σ.state = .identifier) (ht : Typed cc σ) :
+    ArmTyped cc c (armIdentifier cc σ c) := by
+  obtain ⟨ty, hty, hno⟩ := ht.nonOp (by rw [hs]; decide) (by rw [hs]; decide)
+  have hch := ht.chars (by rw [hs]; rfl)
+  unfold armIdentifier
+  split
+  · rename_i h
+    exact ⟨fun _ => Typed.mkPlain (by simp [hs]) (by simp [hs, isLitState]) ty hty hno (ok_snoc hch (ok_identChar h)),
+      fun h => by simp at h⟩
+  · split
+    · rename_i h
+      have : c = '`' := by simpa using h
+      subst this
+      refine ⟨fun h => by simp at h, fun _ => ?_⟩
+      simp only []
+      split
+      · exact typed_nonOp_emit rfl (by simp) (fun _ => ok_snoc hch (ok_backtick cc))
+      · exact typed_nonOp_emit rfl (by simp) (fun _ => ok_snoc hch (ok_backtick cc))
+    · refine ⟨fun h => by simp at h, fun _ => ?_⟩
+      simp only []
+      split
+      · exact typed_nonOp_emit rfl (by simp) (fun _ => hch)
+      · exact typed_nonOp_emit hty hno (fun _ => hch)
+
+theorem armAnnotation_typed (cc : CharClass) (σ : Lexer) (c : Char) (hs : σ.state = .annotation) (ht : Typed cc σ) :
+    ArmTyped cc c (armAnnotation cc σ c) := by
+  obtain ⟨ty, hty, hno⟩ := ht.nonOp (by rw [hs]; decide) (by rw [hs]; decide)
+  have hch := ht.chars (by rw [hs]; rfl)
+  unfold armAnnotation
+  split
+  · exact ⟨fun _ => Typed.mkLit (by simp) (by simp [isLitState]) .lineAnnotation rfl (by simp) (by simp [isLitType]),
+      fun h => by simp at h⟩
+  · split
+    · rename_i h
+      have hc : CanStartOrContinue cc c := by
+        simp only [Bool.or_eq_true, beq_iff_eq] at h
+        rcases h with h | h
+        · exact ok_alnum h
+        · subst h; exact ok_under cc
+      exact ⟨fun _ => Typed.mkPlain (by simp [hs]) (by simp [hs, isLitState]) ty hty hno (ok_snoc hch hc),
+        fun h => by simp at h⟩
+    · exact ⟨fun h => by simp at h, fun _ => typed_nonOp_emit hty hno (fun _ => hch)⟩
+
+theorem armSpaces_typed (cc : CharClass) (σ : Lexer) (c : Char) (hs : σ.state = .spaces) (ht : Typed cc σ) :
+    ArmTyped cc c (armSpaces σ c) := by
+  obtain ⟨ty, hty, hno⟩ := ht.nonOp (by rw [hs]; decide) (by rw [hs]; decide)
+  have hch := ht.chars (by rw [hs]; rfl)
+  unfold armSpaces
+  split
+  · rename_i h
+    have : c = '\n' := by simpa using h
+    subst this
+    have hnl : CanStartOrContinue cc '\n' := ok_ws (by decide)
+    split
+    · exact ⟨fun h => by simp at h, fun _ => typed_nonOp_emit rfl (by simp) (fun _ => ok_snoc hch hnl)⟩
+    · exact ⟨fun _ => Typed.mkPlain (by simp) (by simp [isLitState]) ty hty hno (ok_snoc hch hnl),
+        fun h => by simp at h⟩
+  · split
+    · exact ⟨fun h => by simp at h, fun _ => typed_nonOp_emit hty hno (fun _ => hch)⟩
+    · rename_i h
+      have hb : c = ' ' ∨ c = '\t' := by
+        simp only [bne_iff_ne, ne_eq, Bool.and_eq_true, decide_eq_true_eq, not_and, Decidable.not_not] at h
+        by_cases h1 : c = ' '
+        · exact Or.inl h1
+        · exact Or.inr (h h1)
+      exact ⟨fun _ => Typed.mkPlain (by simp [hs]) (by simp [hs, isLitState]) ty hty hno (ok_snoc hch (ok_blank hb)),
+        fun h => by simp at h⟩
+
+theorem armSubexpression_typed (cc : CharClass) (σ : Lexer) (c : Char) (hs : σ.state = .subexpression)
+    (ht : Typed cc σ) : ArmTyped cc c (armSubexpression σ c) := by
+  have hch := ht.chars (by rw [hs]; rfl)
+  unfold armSubexpression
+  split
+  · rename_i h
+    have hc : CanStartOrContinue cc c := ok_ws (by simp at h; exact h.1)
+    exact ⟨fun h => by simp at h, fun _ => typed_nonOp_emit rfl (by simp) (fun _ => ok_snoc hch hc)⟩
+  · simp only []
+    split
+    · rename_i h
+      have hb : c = ' ' ∨ c = '\t' := by
+        simp only [Bool.or_eq_true, beq_iff_eq] at h
+        exact h.symm
+      exact ⟨fun _ => Typed.mkPlain (by simp) (by simp [isLitState]) .whitespace rfl (by simp)
+        (ok_snoc hch (ok_blank hb)), fun h => by simp at h⟩
+    · exact ⟨fun h => by simp at h, fun _ => typed_nonOp_emit rfl (by simp) (fun _ => hch)⟩
+
+theorem lit_emit {cc : CharClass} {σ1 : Lexer} {c : Char} {ty0 : Gen.TokenType}
+    (hty : σ1.currentTokenType = some ty0) (hno : isOpType ty0 = false) (hl : isLitType ty0 = true) :
+    EmitOk cc σ1 c :=
+  typed_nonOp_emit hty hno (fun h => by rw [hl] at h; cases h)
+
+theorem armStartCharList_typed (cc : CharClass) (σ : Lexer) (c : Char) (hs : σ.state = .startCharList)
+    (ht : Typed cc σ) : ArmTyped cc c (armStartCharList σ c) := by
+  obtain ⟨ty, hty, hno⟩ := ht.nonOp (by rw [hs]; decide) (by rw [hs]; decide)
+  obtain ⟨ty', hty', hlt⟩ := ht.lit (by rw [hs]; rfl)
+  rw [hty] at hty'; cases hty'
+  generalize hr : armStartCharList σ c = r
+  unfold armStartCharList at hr
+  simp only [] at hr
+  repeat' split at hr
+  all_goals subst hr
+  all_goals refine ⟨fun h => ?_, fun h => ?_⟩
+  all_goals first
+    | (exfalso; simp at h; done)
+    | exact lit_emit hty hno hlt
+    | exact Typed.mkLit (by simp [hs]) (by simp [hs, isLitState]) ty hty hno hlt
+
+theorem armCharList_typed (cc : CharClass) (σ : Lexer) (c : Char) (hs : σ.state = .charList)
+    (ht : Typed cc σ) : ArmTyped cc c (armCharList σ c) := by
+  obtain ⟨ty, hty, hno⟩ := ht.nonOp (by rw [hs]; decide) (by rw [hs]; decide)
+  obtain ⟨ty', hty', hlt⟩ := ht.lit (by rw [hs]; rfl)
+  rw [hty] at hty'; cases hty'
+  generalize hr : armCharList σ c = r
+  unfold armCharList at hr
+  simp only [] at hr
+  repeat' split at hr
+  all_goals subst hr
+  all_goals refine ⟨fun h => ?_, fun h => ?_⟩
+  all_goals first
+    | (exfalso; simp at h; done)
+    | exact lit_emit hty hno hlt
+    | exact Typed.mkLit (by simp [hs]) (by simp [hs, isLitState]) ty hty hno hlt
+
+theorem armStartByteList_typed (cc : CharClass) (σ : Lexer) (c : Char) (hs : σ.state = .startByteList)
+    (ht : Typed cc σ) : ArmTyped cc c (armStartByteList σ c) := by
+  obtain ⟨ty, hty, hno⟩ := ht.nonOp (by rw [hs]; decide) (by rw [hs]; decide)
+  obtain ⟨ty', hty', hlt⟩ := ht.lit (by rw [hs]; rfl)
+  rw [hty] at hty'; cases hty'
+  generalize hr : armStartByteList σ c = r
+  unfold armStartByteList at hr
+  simp only [] at hr
+  repeat' split at hr
+  all_goals subst hr
+  all_goals refine ⟨fun h => ?_, fun h => ?_⟩
+  all_goals first
+    | (exfalso; simp at h; done)
+    | exact lit_emit hty hno hlt
+    | exact Typed.mkLit (by simp [hs]) (by simp [hs, isLitState]) ty hty hno hlt
+
+theorem armByteList_typed (cc : CharClass) (σ : Lexer) (c : Char) (hs : σ.state = .byteList)
+    (ht : Typed cc σ) : ArmTyped cc c (armByteList σ c) := by
+  obtain ⟨ty, hty, hno⟩ := ht.nonOp (by rw [hs]; decide) (by rw [hs]; decide)
+  obtain ⟨ty', hty', hlt⟩ := ht.lit (by rw [hs]; rfl)
+  rw [hty] at hty'; cases hty'
+  generalize hr : armByteList σ c = r
+  unfold armByteList at hr
+  simp only [] at hr
+  repeat' split at hr
+  all_goals subst hr
+  all_goals refine ⟨fun h => ?_, fun h => ?_⟩
+  all_goals first
+    | (exfalso; simp at h; done)
+    | exact lit_emit hty hno hlt
+    | exact Typed.mkLit (by simp [hs]) (by simp [hs, isLitState]) ty hty hno hlt
+
+theorem armLineAnnotation_typed (cc : CharClass) (σ : Lexer) (c : Char) (hs : σ.state = .lineAnnotation)
+    (ht : Typed cc σ) : ArmTyped cc c (armLineAnnotation σ c) := by
+  obtain ⟨ty, hty, hno⟩ := ht.nonOp (by rw [hs]; decide) (by rw [hs]; decide)
+  obtain ⟨ty', hty', hlt⟩ := ht.lit (by rw [hs]; rfl)
+  rw [hty] at hty'; cases hty'
+  generalize hr : armLineAnnotation σ c = r
+  unfold armLineAnnotation at hr
+  repeat' split at hr
+  all_goals subst hr
+  all_goals refine ⟨fun h => ?_, fun h => ?_⟩
+  all_goals first
+    | (exfalso; simp at h; done)
+    | exact lit_emit hty hno hlt
+    | exact Typed.mkLit (by simp [hs]) (by simp [hs, isLitState]) ty hty hno hlt
+
+theorem armOperator_typed (cc : CharClass) (σ : Lexer) (c : Char) (hs : σ.state = .operator) (ht : Typed cc σ)
+    (htr : σ.operatorTree = theTree) (hcr : σ.shouldCreate = true) : ArmTyped cc c (armOperator cc σ c) := by
+  obtain ⟨node0, hw0, hty0⟩ := ht.op hs
+  have hch : ∀ x ∈ σ.currentCharacters, CanStartOrContinue cc x := path_chars_ok hw0
+  unfold armOperator
+  simp only []
+  split
+  · rename_i node heq
+    have hw : walkOperator theTree (σ.currentCharacters ++ [c]) = some node := by
+      simpa [currentOperator, push, htr] using heq
+    exact ⟨fun _ => Typed.mkOp (by simp [hs]) node (by simpa [push] using hw) rfl, fun h => by simp at h⟩
+  · rename_i heq
+    have hw : walkOperator theTree (σ.currentCharacters ++ [c]) = none := by
+      simpa [currentOperator, push, htr] using heq
+    split
+    · rename_i h
+      have hid : isIdentifierChar cc c = true := by
+        simp only [Bool.and_eq_true, isIdentifier, push, List.all_append, List.all_cons, List.all_nil,
+          Bool.and_true] at h
+        exact h.2.2
+      exact ⟨fun _ => Typed.mkPlain (by simp) (by simp [isLitState]) .identifier rfl (by simp)
+        (by simpa [push] using ok_snoc hch (ok_identChar hid)), fun h => by simp at h⟩
+    · split
+      · rename_i h
+        have hnum : cc.isNumeric c = true := by
+          simp only [Bool.and_eq_true] at h
+          exact h.1.2
+        exact ⟨fun _ => Typed.mkPlain (by simp) (by simp [isLitState]) .number rfl (by simp)
+          (by simpa [push] using ok_snoc hch (ok_num hnum)), fun h => by simp at h⟩
+      · refine ⟨fun h => by simp at h, fun _ => ?_⟩
+        intro ty hty
+        simp only [pop_push] at hty ⊢
+        rw [hty0] at hty
+        exact ⟨⟨fun _ => ⟨node0, hw0, hty⟩, fun _ => hch⟩, fun _ => ⟨hw, hcr⟩⟩
+
+theorem startToken_typed (cc : CharClass) (σ : Lexer) (c : Char) (htr : σ.operatorTree = theTree)
+    (hs : σ.state = .noToken) : (startToken cc σ c).result = .err ∨ Typed cc (startToken cc σ c) := by
+  unfold startToken
+  simp only []
+  split
+  · rename_i node heq
+    have hw : walkOperator theTree [c] = some node := by simpa [currentOperator, push, htr] using heq
+    exact Or.inr (Typed.mkOp rfl node (by simpa [push] using hw) rfl)
+  · split
+    · rename_i h
+      have hc : CanStartOrContinue cc c := by
+        simp only [Bool.or_eq_true, beq_iff_eq] at h
+        rcases h with (h | h) | h <;> subst h <;> exact ok_ws (by decide)
+      exact Or.inr (Typed.mkPlain (by simp) (by simp [isLitState]) .whitespace rfl (by simp)
+        (by simpa [push] using hc))
+    · split
+      · rename_i h
+        exact Or.inr (Typed.mkPlain (by simp) (by simp [isLitState]) .subexpression rfl (by simp)
+          (by simpa [push] using (ok_ws h : CanStartOrContinue cc c)))
+      · split
+        · rename_i h
+          exact Or.inr (Typed.mkPlain (by simp) (by simp [isLitState]) .number rfl (by simp)
+            (by simpa [push] using (ok_num h : CanStartOrContinue cc c)))
+        · split
+          · rename_i h
+            exact Or.inr (Typed.mkPlain (by simp) (by simp [isLitState]) .identifier rfl (by simp)
+              (by simpa [push] using (ok_identChar h : CanStartOrContinue cc c)))
+          · split
+            · rename_i h
+              have : c = '`' := by simpa using h
+              subst this
+              exact Or.inr (Typed.mkPlain (by simp) (by simp [isLitState]) .suffixIdentifier rfl (by simp)
+                (by simpa [push] using ok_backtick cc))
+            · split
+              · rename_i h
+                have : c = '@' := by simpa using h
+                subst this
+                exact Or.inr (Typed.mkPlain (by simp) (by simp [isLitState]) .annotation rfl (by simp)
+                  (by simpa [push] using ok_at cc))
+              · split
+                · exact Or.inr (Typed.mkLit (by simp) (by simp [isLitState]) .charList rfl (by simp)
+                    (by simp [isLitType]))
+                · split
+                  · exact Or.inr (Typed.mkLit (by simp) (by simp [isLitState]) .byteList rfl (by simp)
+                      (by simp [isLitType]))
+                  · split
+                    · exact Or.inr (Typed.noToken rfl rfl)
+                    · exact Or.inl rfl
+
+theorem startToken_dot (cc : CharClass) (σ : Lexer) (htr : σ.operatorTree = theTree) :
+    (startToken cc σ '.').state = .operator ∧ (startToken cc σ '.').currentCharacters = ['.'] ∧
+    (startToken cc σ '.').operatorTree = theTree := by
+  have hdot : (walkOperator theTree ['.']).isSome = true := by decide
+  cases hw : walkOperator theTree ['.'] with
+  | none => rw [hw] at hdot; cases hdot
+  | some node =>
+    unfold startToken
+    simp [currentOperator, push, htr, hw]
+
+theorem trimMatches_mem (cs : List Char) (d x : Char) (h : x ∈ trimMatches cs d) : x ∈ cs := by
+  unfold trimMatches at h
+  have h1 : x ∈ ((cs.dropWhile (· == d)).reverse.dropWhile (· == d)) := by simpa using h
+  have h2 := (List.dropWhile_sublist _).subset h1
+  have h3 : x ∈ cs.dropWhile (· == d) := by simpa using h2
+  exact (List.dropWhile_sublist _).subset h3
+
+/-- the Float arm: typed result, and the number emitted by the float split is fine -/
+theorem armFloat_typed (cc : CharClass) (σ : Lexer) (c : Char) (hs : σ.state = .float) (ht : Typed cc σ)
+    (htr : σ.operatorTree = theTree) (st : Step) (h : armFloat cc σ c = .ok st) :
+    match st with
+    | .cont σ1 nt sn => ArmTyped cc c (σ1, sn) ∧
+        (∀ t, nt = some t → sn = false ∧ isOpType t.tokenType = false ∧ TokOk cc t.text t.tokenType)
+    | .returnNone _ => True := by
+  obtain ⟨ty, hty, hno⟩ := ht.nonOp (by rw [hs]; decide) (by rw [hs]; decide)
+  have hch := ht.chars (by rw [hs]; rfl)
+  unfold armFloat at h
+  split at h
+  · rename_i hc
+    cases h
+    exact ⟨⟨fun _ => Typed.mkPlain (by simp [hs]) (by simp [hs, isLitState]) ty hty hno (ok_snoc hch (ok_nua hc)),
+      fun h => by simp at h⟩, fun t ht => by cases ht⟩
+  · split at h
+    · simp only [] at h
+      split at h
+      · cases h
+      · have hsd := startToken_dot cc { σ with tokenStartRow := σ.textRow } (by simpa using htr)
+        generalize startToken cc { σ with tokenStartRow := σ.textRow } '.' = s1 at h hsd
+        split at h
+        · rename_i node heq
+          cases h
+          have hw : walkOperator theTree ['.', c] = some node := by
+            simpa [currentOperator, push, hsd.2.1, hsd.2.2] using heq
+          refine ⟨⟨fun _ => Typed.mkOp (by simpa using hsd.1) node (by simpa [push, hsd.2.1] using hw) rfl,
+            fun h => by simp at h⟩, ?_⟩
+          intro t ht
+          simp only [Option.some.injEq] at ht
+          subst ht
+          refine ⟨rfl, by simp, ⟨fun h => by simp at h, fun _ x hx => hch x (trimMatches_mem _ _ _ hx)⟩⟩
+        · cases h; trivial
+    · cases h
+      exact ⟨⟨fun h => by simp at h, fun _ => typed_nonOp_emit hty hno (fun _ => hch)⟩, fun t ht => by cases ht⟩
+
+/-! ### operator tokens and the character after them -/
+
+/-- every operator token among `ts` (starting at offset `o` of `consumed`) is followed in `consumed` by a character
+that continues no path of the operator tree -/
+def OpWitFrom (consumed : List Char) : Nat → List LexerToken → Prop
+  | _, [] => True
+  | o, t :: ts =>
+    (isOpType t.tokenType = true →
+      ∃ d, consumed[o + t.text.length]? = some d ∧ walkOperator theTree (t.text ++ [d]) = none) ∧
+    OpWitFrom consumed (o + t.text.length) ts
+
+/-- same, but an operator token may also end exactly at the end of the input -/
+def OpEndFrom (s : List Char) : Nat → List LexerToken → Prop
+  | _, [] => True
+  | o, t :: ts =>
+    (isOpType t.tokenType = true →
+      (∃ d, s[o + t.text.length]? = some d ∧ walkOperator theTree (t.text ++ [d]) = none) ∨
+      o + t.text.length = s.length) ∧
+    OpEndFrom s (o + t.text.length) ts
+
+theorem OpWitFrom_mono (consumed x : List Char) : ∀ (o : Nat) (ts : List LexerToken),
+    OpWitFrom consumed o ts → OpWitFrom (consumed ++ x) o ts
+  | _, [], _ => trivial
+  | o, t :: ts, h => by
+    refine ⟨fun hop => ?_, OpWitFrom_mono consumed x _ ts h.2⟩
+    obtain ⟨d, hd, hw⟩ := h.1 hop
+    refine ⟨d, ?_, hw⟩
+    have hlt : o + t.text.length < consumed.length := by
+      rcases Nat.lt_or_ge (o + t.text.length) consumed.length with hlt | hge
+      · exact hlt
+      · rw [List.getElem?_eq_none hge] at hd
+        cases hd
+    rw [List.getElem?_append_left hlt]; exact hd
+
+theorem OpWitFrom_snoc (consumed : List Char) : ∀ (o : Nat) (ts : List LexerToken) (t : LexerToken),
+    OpWitFrom consumed o ts →
+    (isOpType t.tokenType = true →
+      ∃ d, consumed[o + (textsOf ts).length + t.text.length]? = some d ∧
+        walkOperator theTree (t.text ++ [d]) = none) →
+    OpWitFrom consumed o (ts ++ [t])
+  | o, [], t, _, h => by simpa [OpWitFrom] using h
+  | o, t0 :: ts, t, h0, h => by
+    refine ⟨h0.1, OpWitFrom_snoc consumed _ ts t h0.2 ?_⟩
+    intro hop
+    obtain ⟨d, hd, hw⟩ := h hop
+    refine ⟨d, ?_, hw⟩
+    have : o + (textsOf (t0 :: ts)).length = o + t0.text.length + (textsOf ts).length := by
+      simp [textsOf]; omega
+    rw [← this]; exact hd
+
+theorem OpEnd_of_wit (s : List Char) : ∀ (o : Nat) (ts : List LexerToken), OpWitFrom s o ts → OpEndFrom s o ts
+  | _, [], _ => trivial
+  | o, t :: ts, h => ⟨fun hop => Or.inl (h.1 hop), OpEnd_of_wit s _ ts h.2⟩
+
+theorem OpEndFrom_snoc_end (s : List Char) : ∀ (o : Nat) (ts : List LexerToken) (t : LexerToken),
+    OpEndFrom s o ts → o + (textsOf ts).length + t.text.length = s.length → OpEndFrom s o (ts ++ [t])
+  | o, [], t, _, h => by
+    refine ⟨fun _ => Or.inr ?_, trivial⟩
+    simpa using h
+  | o, t0 :: ts, t, h0, h => by
+    refine ⟨h0.1, OpEndFrom_snoc_end s _ ts t h0.2 ?_⟩
+    have : o + (textsOf (t0 :: ts)).length = o + t0.text.length + (textsOf ts).length := by
+      simp [textsOf]; omega
+    rw [← this]; exact h
+
+/-- the second invariant -/
+structure Inv2 (cc : CharClass) (σ : Lexer) (consumed : List Char) (toks : List LexerToken) : Prop where
+  tree : σ.operatorTree = theTree
+  typed : Typed cc σ
+  toksOk : ∀ t ∈ toks, TokOk cc t.text t.tokenType
+  opWit : OpWitFrom consumed 0 toks
+
+theorem Typed_congr {cc : CharClass} {σ σ' : Lexer} (h1 : σ'.state = σ.state)
+    (h2 : σ'.currentTokenType = σ.currentTokenType) (h3 : σ'.currentCharacters = σ.currentCharacters)
+    (h : Typed cc σ) : Typed cc σ' := by
+  obtain ⟨a, b, c, d⟩ := h
+  constructor
+  · rw [h1, h2, h3]; exact a
+  · rw [h1, h2]; exact b
+  · rw [h1, h2]; exact c
+  · rw [h1, h3]; exact d
+
+@[simp] theorem bumpColumn_type (σ : Lexer) (c : Char) : (bumpColumn σ c).currentTokenType = σ.currentTokenType := by
+  unfold bumpColumn; split <;> rfl
+@[simp] theorem bumpColumn_tree (σ : Lexer) (c : Char) : (bumpColumn σ c).operatorTree = σ.operatorTree := by
+  unfold bumpColumn; split <;> rfl
+
+theorem Typed_bump {cc : CharClass} {σ : Lexer} (c : Char) (h : Typed cc σ) : Typed cc (bumpColumn σ c) :=
+  Typed_congr (by simp) (by simp) (by simp) h
+
+/-- the lexer right after a token has been pushed (the `set default for new` block) -/
+def afterEmit (σ1 : Lexer) : Lexer :=
+  { σ1 with canFloat := !blocksFloat σ1.currentTokenType, result := .ok, state := .noToken,
+            currentCharacters := [], currentTokenType := none, startQuoteCount := 0, endQuoteCount := 0,
+            couldBeSubExpression := false }
+
+/-- what `finishChar` does when the arm ended the token -/
+theorem finishChar_true (cc : CharClass) (σ1 : Lexer) (c : Char) (hnt : σ1.state ≠ .noToken) :
+    (finishChar cc σ1 c none true).1.result = .err ∨
+    ∃ ty, σ1.currentTokenType = some ty ∧
+      finishChar cc σ1 c none true =
+        (bumpColumn (if σ1.shouldCreate then startToken cc (afterEmit σ1) c
+                     else { afterEmit σ1 with shouldCreate := true }) c,
+         some ⟨σ1.currentCharacters, ty, σ1.tokenStartRow, σ1.tokenStartColumn⟩) := by
+  simp only [finishChar, ↓reduceIte, pushNewToken]
+  have hne : (σ1.state != LexingState.noToken) = true := by simpa using hnt
+  simp only [hne, ↓reduceIte]
+  cases hcv : canCreateValidToken { σ1 with canFloat := !blocksFloat σ1.currentTokenType } with
+  | err =>
+    left
+    simp only [LexResult.isOk, Bool.false_eq_true, ↓reduceIte]
+    split
+    · simp only [bumpColumn_result]; exact startToken_result_err cc _ c rfl
+    · simp
+  | ok =>
+    simp only [LexResult.isOk, ↓reduceIte]
+    cases hty : σ1.currentTokenType with
+    | none => left; rfl
+    | some ty =>
+      right
+      refine ⟨ty, rfl, ?_⟩
+      simp only [afterEmit, hty]
+
+theorem Inv2_lexed {cc : CharClass} {σ : Lexer} {consumed : List Char} {toks : List LexerToken} (n : Nat)
+    (h : Inv2 cc σ consumed toks) : Inv2 cc { σ with charactersLexed := n } consumed toks :=
+  ⟨h.tree, Typed_congr (σ := σ) rfl rfl rfl h.typed, h.toksOk, h.opWit⟩
+
+theorem Inv2_atEnd {cc : CharClass} {σ : Lexer} {consumed : List Char} {toks : List LexerToken} (b : Bool)
+    (h : Inv2 cc σ consumed toks) : Inv2 cc { σ with atEnd := b } consumed toks :=
+  ⟨h.tree, Typed_congr (σ := σ) rfl rfl rfl h.typed, h.toksOk, h.opWit⟩
+
+theorem toksOk_snoc {cc : CharClass} {toks : List LexerToken} {t : LexerToken}
+    (h : ∀ t ∈ toks, TokOk cc t.text t.tokenType) (ht : TokOk cc t.text t.tokenType) :
+    ∀ x ∈ toks ++ [t], TokOk cc x.text x.tokenType := by
+  intro x hx
+  simp only [List.mem_append, List.mem_singleton] at hx
+  rcases hx with hx | rfl
+  · exact h x hx
+  · exact ht
+
+/-- the part of `process_char` after the arm keeps the second invariant (regular character) -/
+theorem finishChar_typed (cc : CharClass) (σ : Lexer) (c : Char) (consumed : List Char) (toks : List LexerToken)
+    (hcore : Core σ consumed toks) (hinv2 : Inv2 cc σ consumed toks) (hst : σ.state ≠ .noToken)
+    (σ1 : Lexer) (sn : Bool) (heff : ArmEff σ c (σ1, sn)) (hty : ArmTyped cc c (σ1, sn)) :
+    (finishChar cc σ1 c none sn).1.result = .err ∨
+    Inv2 cc (finishChar cc σ1 c none sn).1 (consumed ++ [c]) (toks ++ (finishChar cc σ1 c none sn).2.toList) := by
+  obtain ⟨hfr, hk⟩ := heff
+  simp only [] at hfr hk
+  have htree1 : σ1.operatorTree = theTree := by rw [hfr.operatorTree]; exact hinv2.tree
+  rcases hk with ⟨rfl, hcr, hch, hnt, hsh⟩ | ⟨rfl, hcr, hch, hnt⟩ | ⟨rfl, hcr, hch, hnt⟩
+  · right
+    simp only [finishChar, Bool.false_eq_true, ↓reduceIte, Option.toList_none, List.append_nil]
+    exact ⟨by simpa using htree1, Typed_bump c (hty.1 rfl), hinv2.toksOk, OpWitFrom_mono _ _ _ _ hinv2.opWit⟩
+  · rcases finishChar_true cc σ1 c hnt with herr | ⟨ty, htyeq, heq⟩
+    · exact Or.inl herr
+    · rw [heq]
+      simp only [hcr, ↓reduceIte, Option.toList_some]
+      have hemit := (hty.2 rfl) ty htyeq
+      rcases startToken_typed cc (afterEmit σ1) c (by simpa [afterEmit] using htree1) rfl with herr | htyped
+      · exact Or.inl (by simpa using herr)
+      · right
+        refine ⟨?_, Typed_bump c htyped, toksOk_snoc hinv2.toksOk hemit.1, ?_⟩
+        · rw [bumpColumn_tree, (startToken_startFrame cc (afterEmit σ1) c).operatorTree]
+          simpa [afterEmit] using htree1
+        · apply OpWitFrom_snoc _ _ _ _ (OpWitFrom_mono _ _ _ _ hinv2.opWit)
+          intro hop
+          refine ⟨c, ?_, (hemit.2 hop).1⟩
+          have hlen : 0 + (textsOf toks).length + σ1.currentCharacters.length = consumed.length := by
+            rw [hch, ← hcore.lossless]; simp
+          simp only [] at hlen ⊢
+          rw [hlen]
+          simp
+  · rcases finishChar_true cc σ1 c hnt with herr | ⟨ty, htyeq, heq⟩
+    · exact Or.inl herr
+    · rw [heq]
+      simp only [hcr, Bool.false_eq_true, ↓reduceIte, Option.toList_some]
+      have hemit := (hty.2 rfl) ty htyeq
+      right
+      refine ⟨by simpa [afterEmit] using htree1, Typed_bump c (Typed.noToken rfl rfl),
+        toksOk_snoc hinv2.toksOk hemit.1, ?_⟩
+      apply OpWitFrom_snoc _ _ _ _ (OpWitFrom_mono _ _ _ _ hinv2.opWit)
+      intro hop
+      have := (hemit.2 hop).2
+      rw [hcr] at this; cases this
+
+/-- `process_char` on a regular character keeps the second invariant or records an error -/
+theorem processChar_typed (cc : CharClass) (hcc : cc.Sane2) (σ : Lexer) (c : Char) (consumed : List Char)
+    (toks : List LexerToken) (hcore : Core σ consumed toks) (hinv2 : Inv2 cc σ consumed toks) (hinv : Inv σ)
+    (hns : ¬Sentinel σ c) (σ' : Lexer) (ot : Option LexerToken) (h : processChar cc σ c = .ok (σ', ot)) :
+    σ'.result = .err ∨ Inv2 cc σ' (consumed ++ [c]) (toks ++ ot.toList) := by
+  unfold processChar at h
+  simp only [] at h
+  have hcore0 := Core_lexed (σ.charactersLexed + 1) hcore
+  have hinv20 := Inv2_lexed (σ.charactersLexed + 1) hinv2
+  generalize hσ0 : { σ with charactersLexed := σ.charactersLexed + 1 } = σ0 at h hcore0 hinv20
+  have hns0 : ¬Sentinel σ0 c := by subst hσ0; exact hns
+  have hinv0 : Inv σ0 := by subst hσ0; exact hinv
+  clear hσ0 hcore hns hinv hinv2
+  have key : ∀ p : Lexer × Bool, σ0.state ≠ .noToken → ArmEff σ0 c p → ArmTyped cc c p →
+      stateStep cc σ0 c = Step.ofPair p → σ'.result = .err ∨ Inv2 cc σ' (consumed ++ [c]) (toks ++ ot.toList) := by
+    intro p hst heff hty hss
+    rw [hss] at h
+    simp only [Step.ofPair, Outcome.ok.injEq] at h
+    have := finishChar_typed cc σ0 c consumed toks hcore0 hinv20 hst p.1 p.2 heff hty
+    rw [h] at this
+    exact this
+  have ht := hinv20.typed
+  have htr := hinv20.tree
+  unfold stateStep at h key
+  cases hs : σ0.state <;> rw [hs] at h key <;> simp only [] at h key
+  case noToken =>
+    simp only [Step.ofPair, armNoToken, finishChar, Bool.false_eq_true, ↓reduceIte, Outcome.ok.injEq,
+      Prod.mk.injEq] at h
+    obtain ⟨rfl, rfl⟩ := h
+    simp only [Option.toList_none, List.append_nil]
+    rcases startToken_typed cc σ0 c htr hs with herr | htyped
+    · exact Or.inl (by simpa using herr)
+    · right
+      refine ⟨?_, Typed_bump c htyped, hinv20.toksOk, OpWitFrom_mono _ _ _ _ hinv20.opWit⟩
+      rw [bumpColumn_tree, (startToken_startFrame cc σ0 c).operatorTree]; exact htr
+  case float =>
+    have hpos : 1 ≤ σ0.textColumn := hinv0 hs
+    have hnt : σ0.state ≠ .noToken := by rw [hs]; decide
+    obtain ⟨st, hst, hout⟩ := armFloat_eff cc hcc σ0 c hs hcore0.create hcore0.shape hpos hcore0.ok
+    have htyped := armFloat_typed cc σ0 c hs ht htr st hst
+    rw [hst] at h
+    rcases hout with ⟨σ1, sn, rfl, heff⟩ | herr | ⟨rfl, a, σ1, rfl, hsp⟩
+    · simp only [Outcome.ok.injEq] at h
+      have := finishChar_typed cc σ0 c consumed toks hcore0 hinv20 hnt σ1 sn heff htyped.1
+      rw [h] at this
+      exact this
+    · left
+      rcases herr with ⟨s1, nt, rfl, herr⟩ | ⟨s1, rfl, herr⟩
+      · simp only [finishChar, Bool.false_eq_true, ↓reduceIte, Outcome.ok.injEq, Prod.mk.injEq] at h
+        obtain ⟨rfl, _⟩ := h
+        simpa using herr
+      · simp only [Outcome.ok.injEq, Prod.mk.injEq] at h
+        obtain ⟨rfl, _⟩ := h
+        exact herr
+    · simp only [finishChar, Bool.false_eq_true, ↓reduceIte, Outcome.ok.injEq, Prod.mk.injEq] at h
+      obtain ⟨rfl, rfl⟩ := h
+      right
+      obtain ⟨harm, htok⟩ := htyped
+      obtain ⟨_, hnop, htokok⟩ := htok _ rfl
+      simp only [Option.toList_some]
+      refine ⟨by simpa [hsp.operatorTree] using htr, Typed_bump '.' (harm.1 rfl),
+        toksOk_snoc hinv20.toksOk htokok, ?_⟩
+      apply OpWitFrom_snoc _ _ _ _ (OpWitFrom_mono _ _ _ _ hinv20.opWit)
+      intro hop
+      simp only [] at hop hnop
+      rw [hnop] at hop; cases hop
+  all_goals (have hnt : σ0.state ≠ .noToken := by rw [hs]; decide)
+  · exact key _ (by decide) (armOperator_eff cc hcc σ0 c hs hcore0.create (hcore0.tok hnt))
+      (armOperator_typed cc σ0 c hs ht htr hcore0.create) rfl
+  · exact key _ (by decide) (armSpaces_eff σ0 c hs hcore0.create) (armSpaces_typed cc σ0 c hs ht) rfl
+  · exact key _ (by decide) (armSubexpression_eff σ0 c hs hcore0.create) (armSubexpression_typed cc σ0 c hs ht) rfl
+  · exact key _ (by decide) (armNumber_eff cc hcc σ0 c hs hcore0.create (hcore0.tok hnt) hcore0.shape)
+      (armNumber_typed cc σ0 c hs ht) rfl
+  · exact key _ (by decide) (armIdentifier_eff cc σ0 c hs hcore0.create) (armIdentifier_typed cc σ0 c hs ht) rfl
+  · exact key _ (by decide) (armAnnotation_eff cc σ0 c hs hcore0.create) (armAnnotation_typed cc σ0 c hs ht) rfl
+  · exact key _ (by decide) (armLineAnnotation_eff σ0 c hs hcore0.create hns0)
+      (armLineAnnotation_typed cc σ0 c hs ht) rfl
+  · exact key _ (by decide) (armCharList_eff σ0 c hs hcore0.create) (armCharList_typed cc σ0 c hs ht) rfl
+  · exact key _ (by decide) (armStartCharList_eff σ0 c hs hcore0.create hns0)
+      (armStartCharList_typed cc σ0 c hs ht) rfl
+  · exact key _ (by decide) (armByteList_eff σ0 c hs hcore0.create) (armByteList_typed cc σ0 c hs ht) rfl
+  · exact key _ (by decide) (armStartByteList_eff σ0 c hs hcore0.create hns0)
+      (armStartByteList_typed cc σ0 c hs ht) rfl
+
+theorem finishChar_tok (cc : CharClass) (σ1 : Lexer) (c : Char) (sn : Bool) (hnt : σ1.state ≠ .noToken)
+    (hty : ArmTyped cc c (σ1, sn)) (t : LexerToken) (ht : (finishChar cc σ1 c none sn).2 = some t) :
+    (finishChar cc σ1 c none sn).1.result = .err ∨ TokOk cc t.text t.tokenType := by
+  cases sn with
+  | false => simp [finishChar] at ht
+  | true =>
+    rcases finishChar_true cc σ1 c hnt with herr | ⟨ty, htyeq, heq⟩
+    · exact Or.inl herr
+    · rw [heq] at ht
+      simp only [Option.some.injEq] at ht
+      subst ht
+      exact Or.inr ((hty.2 rfl) ty htyeq).1
+
+/-- the token emitted while the end-of-input sentinel is pushed through is fine -/
+theorem processChar_end_tok (cc : CharClass) (hcc : cc.Sane) (σ : Lexer) (consumed : List Char)
+    (toks : List LexerToken) (hcore : Core σ consumed toks) (hinv2 : Inv2 cc σ consumed toks)
+    (hat : σ.atEnd = true) (σ' : Lexer) (t : LexerToken) (h : processChar cc σ '\x00' = .ok (σ', some t)) :
+    σ'.result = .err ∨ TokOk cc t.text t.tokenType := by
+  unfold processChar at h
+  simp only [] at h
+  have hcore0 := Core_lexed (σ.charactersLexed + 1) hcore
+  have hinv20 := Inv2_lexed (σ.charactersLexed + 1) hinv2
+  generalize hσ0 : { σ with charactersLexed := σ.charactersLexed + 1 } = σ0 at h hcore0 hinv20
+  have hat0 : σ0.atEnd = true := by subst hσ0; exact hat
+  clear hσ0 hcore hinv2 hat
+  have key : ∀ p : Lexer × Bool, p.1.state ≠ .noToken → ArmTyped cc '\x00' p →
+      stateStep cc σ0 '\x00' = Step.ofPair p → σ'.result = .err ∨ TokOk cc t.text t.tokenType := by
+    intro p hst hty hss
+    rw [hss] at h
+    simp only [Step.ofPair, Outcome.ok.injEq] at h
+    have := finishChar_tok cc p.1 '\x00' p.2 hst hty t (by rw [h])
+    rw [h] at this
+    exact this
+  have ht := hinv20.typed
+  have htr := hinv20.tree
+  unfold stateStep at h key
+  cases hs : σ0.state <;> rw [hs] at h key <;> simp only [] at h key
+  case noToken =>
+    simp only [Step.ofPair, armNoToken, finishChar, Bool.false_eq_true, ↓reduceIte, Outcome.ok.injEq,
+      Prod.mk.injEq] at h
+    obtain ⟨_, h2⟩ := h
+    cases h2
+  case float =>
+    obtain ⟨σ1, sn, hst, heff⟩ := armFloat_end cc hcc σ0 hs hcore0.create
+    have htyped := armFloat_typed cc σ0 '\x00' hs ht htr _ hst
+    rw [hst] at h
+    simp only [Outcome.ok.injEq] at h
+    have := finishChar_tok cc σ1 '\x00' sn heff.2.1 htyped.1 t (by rw [h])
+    rw [h] at this
+    exact this
+  all_goals (have hnt : σ0.state ≠ .noToken := by rw [hs]; decide)
+  · exact key _ (armOperator_end cc hcc σ0 hs hcore0.create (hcore0.tok hnt)).2.1
+      (armOperator_typed cc σ0 _ hs ht htr hcore0.create) rfl
+  · exact key _ (armSpaces_end σ0 hs hcore0.create (hcore0.tok hnt)).2.1 (armSpaces_typed cc σ0 _ hs ht) rfl
+  · exact key _ (armSubexpression_end σ0 hs hcore0.create (hcore0.tok hnt)).2.1
+      (armSubexpression_typed cc σ0 _ hs ht) rfl
+  · exact key _ (armNumber_end cc hcc σ0 hs hcore0.create (hcore0.tok hnt)).2.1 (armNumber_typed cc σ0 _ hs ht) rfl
+  · exact key _ (armIdentifier_end cc hcc σ0 hs hcore0.create (hcore0.tok hnt)).2.1
+      (armIdentifier_typed cc σ0 _ hs ht) rfl
+  · exact key _ (armAnnotation_end cc hcc σ0 hs hcore0.create (hcore0.tok hnt)).2.1
+      (armAnnotation_typed cc σ0 _ hs ht) rfl
+  · exact key _ (armLineAnnotation_end σ0 hs hcore0.create (hcore0.tok hnt) hat0).2.1
+      (armLineAnnotation_typed cc σ0 _ hs ht) rfl
+  · exact key _ (armCharList_end σ0 hs hcore0.create (hcore0.tok hnt)).2.1 (armCharList_typed cc σ0 _ hs ht) rfl
+  · exact key _ (armStartCharList_end σ0 hs hcore0.create (hcore0.tok hnt) hat0).2.1
+      (armStartCharList_typed cc σ0 _ hs ht) rfl
+  · exact key _ (armByteList_end σ0 hs hcore0.create (hcore0.tok hnt)).2.1 (armByteList_typed cc σ0 _ hs ht) rfl
+  · exact key _ (armStartByteList_end σ0 hs hcore0.create (hcore0.tok hnt) hat0).2.1
+      (armStartByteList_typed cc σ0 _ hs ht) rfl
+
+theorem operatorTree_TreeOk : TreeOk theTree :=
+  walk_none_of_isNone (by decide)
+
+/-- result of a successful `lex`, second part: every token is fine and every operator token is followed by a
+character that continues no path of the operator tree, or ends at the end of the input -/
+structure Final2 (cc : CharClass) (toks : List LexerToken) (s : List Char) : Prop where
+  toksOk : ∀ t ∈ toks, TokOk cc t.text t.tokenType
+  opEnd : OpEndFrom s 0 toks
+
+theorem lexEnd_final2 (cc : CharClass) (hcc : cc.Sane) (fuel : Nat) (σ σ' : Lexer) (consumed : List Char)
+    (toks toks' : List LexerToken) (hcore : Core σ consumed toks) (hinv2 : Inv2 cc σ consumed toks)
+    (h : lexEnd cc (fuel + 2) σ toks = .ok (toks', σ')) : Final2 cc toks' consumed := by
+  have hfin := lexEnd_final cc hcc fuel σ σ' consumed toks toks' hcore (by rw [hinv2.tree]; exact operatorTree_TreeOk) h
+  rw [show fuel + 2 = (fuel + 1) + 1 from rfl, lexEnd] at h
+  simp only [isErr_of_ok hcore.ok, Bool.false_eq_true, ↓reduceIte] at h
+  cases hp : processChar cc { σ with atEnd := true } '\x00' with
+  | ok r =>
+    obtain ⟨σ1, ot⟩ := r
+    rw [hp] at h
+    cases ot with
+    | none =>
+      simp only [] at h
+      obtain ⟨htoks, _⟩ := lexFinish_ok h
+      subst htoks
+      exact ⟨hinv2.toksOk, OpEnd_of_wit _ _ _ hinv2.opWit⟩
+    | some t =>
+      simp only [] at h
+      cases hr1 : σ1.result with
+      | err => rw [hr1] at h; cases h
+      | ok =>
+        rw [hr1] at h
+        simp only [] at h
+        have htok := processChar_end_tok cc hcc _ consumed toks (Core_atEnd true hcore) (Inv2_atEnd true hinv2) rfl σ1 t hp
+        rcases htok with herr | htok
+        · rw [hr1] at herr; cases herr
+        · have hend := processChar_end cc hcc _ consumed toks (Core_atEnd true hcore) rfl
+            (by rw [show ({ σ with atEnd := true } : Lexer).operatorTree = σ.operatorTree from rfl, hinv2.tree]
+                exact operatorTree_TreeOk) σ1 (some t) hp
+          rcases hend with herr | ⟨hnone, _⟩ | ⟨t', ht', hs1, hfin1⟩
+          · rw [hr1] at herr; cases herr
+          · cases hnone
+          · cases ht'
+            have := lexEnd_second cc fuel σ1 σ' (toks ++ [t]) toks' hs1 h
+            subst this
+            refine ⟨toksOk_snoc hinv2.toksOk htok, ?_⟩
+            apply OpEndFrom_snoc_end _ _ _ _ (OpEnd_of_wit _ _ _ hinv2.opWit)
+            have := hfin1.lossless
+            rw [textsOf_snoc] at this
+            rw [← this]; simp
+  | err e => rw [hp] at h; cases h
+  | panic m => rw [hp] at h; cases h
+  | fuelOut => rw [hp] at h; cases h
+
+theorem lexLoop_final2 (cc : CharClass) (hcc : cc.Sane2) :
+    ∀ (input : List Char) (σ σ' : Lexer) (consumed : List Char) (toks toks' : List LexerToken),
+      Core σ consumed toks → Inv2 cc σ consumed toks → Inv σ → σ.atEnd = false →
+      lexLoop cc input σ toks = .ok (toks', σ') → Final2 cc toks' (consumed ++ input)
+  | [], σ, σ', consumed, toks, toks', hcore, hinv2, _, _, h => by
+    simp only [lexLoop, endFuel] at h
+    rw [List.append_nil]
+    exact lexEnd_final2 cc hcc.toSane 2 σ σ' consumed toks toks' hcore hinv2 h
+  | c :: rest, σ, σ', consumed, toks, toks', hcore, hinv2, hinv, hat, h => by
+    simp only [lexLoop, isErr_of_ok hcore.ok, Bool.false_eq_true, ↓reduceIte] at h
+    obtain ⟨σ1, ot, hp, hinv1⟩ := processChar_ok cc hcc.toSane σ c hinv
+    have hf := processChar_frame cc _ _ _ _ hp
+    have hns : ¬Sentinel σ c := fun hs => by have := hs.2; rw [hat] at this; cases this
+    have hstep := processChar_core cc hcc σ c consumed toks hcore hinv hns σ1 ot hp
+    have hstep2 := processChar_typed cc hcc σ c consumed toks hcore hinv2 hinv hns σ1 ot hp
+    rw [hp] at h
+    have hcons : consumed ++ c :: rest = (consumed ++ [c]) ++ rest := by simp
+    rw [hcons]
+    have hres : σ1.result = .ok := by
+      cases hr : σ1.result with
+      | ok => rfl
+      | err =>
+        exfalso
+        cases ot with
+        | none => simp only [] at h; rw [lexLoop_err cc rest σ1 toks hr] at h; cases h
+        | some t => simp only [] at h; rw [hr] at h; cases h
+    have hcore1 : Core σ1 (consumed ++ [c]) (toks ++ ot.toList) := by
+      rcases hstep with herr | hc
+      · rw [hres] at herr; cases herr
+      · exact hc
+    have hinv21 : Inv2 cc σ1 (consumed ++ [c]) (toks ++ ot.toList) := by
+      rcases hstep2 with herr | hc
+      · rw [hres] at herr; cases herr
+      · exact hc
+    cases ot with
+    | none =>
+      simp only [] at h
+      exact lexLoop_final2 cc hcc rest σ1 σ' _ toks toks' (by simpa using hcore1) (by simpa using hinv21) hinv1
+        (by rw [hf.2.1]; exact hat) h
+    | some t =>
+      simp only [] at h
+      rw [hres] at h
+      simp only [] at h
+      exact lexLoop_final2 cc hcc rest σ1 σ' _ (toks ++ [t]) toks' (by simpa using hcore1) (by simpa using hinv21)
+        hinv1 (by rw [hf.2.1]; exact hat) h
+
+theorem Inv2_init (cc : CharClass) : Inv2 cc (Lexer.init theTree) [] [] :=
+  ⟨rfl, Typed.noToken rfl rfl, by simp, trivial⟩
+
+theorem lex_final2 (cc : CharClass) (hcc : cc.Sane2) (s : List Char) (toks : List LexerToken)
+    (h : lex cc s = .ok toks) : Final2 cc toks s := by
+  unfold lex lexFull at h
+  rw [new_eq] at h
+  simp only [] at h
+  cases hl : lexLoop cc s (Lexer.init theTree) [] with
+  | ok r =>
+    obtain ⟨toks', σ'⟩ := r
+    rw [hl] at h
+    simp only [Outcome.ok.injEq] at h
+    subst h
+    have := lexLoop_final2 cc hcc s (Lexer.init theTree) σ' [] [] toks' (Core_init theTree) (Inv2_init cc)
+      (fun h => by simp [Lexer.init] at h) rfl hl
+    simpa using this
+  | err e => rw [hl] at h; cases h
+  | panic m => rw [hl] at h; cases h
+  | fuelOut => rw [hl] at h; cases h
+
+theorem OpEndFrom_get (s : List Char) : ∀ (o : Nat) (toks : List LexerToken), OpEndFrom s o toks →
+    ∀ (i : Nat) (hi : i < toks.length), isOpType toks[i].tokenType = true →
+      (∃ d, s[o + (textsOf (toks.take i)).length + toks[i].text.length]? = some d ∧
+        walkOperator theTree (toks[i].text ++ [d]) = none) ∨
+      o + (textsOf (toks.take i)).length + toks[i].text.length = s.length
+  | o, [], _, i, hi, _ => by simp at hi
+  | o, t :: ts, h, 0, _, hop => by simpa [textsOf] using h.1 hop
+  | o, t :: ts, h, i + 1, hi, hop => by
+    have := OpEndFrom_get s (o + t.text.length) ts h.2 i (by simpa using hi) (by simpa using hop)
+    have e : (textsOf (t :: List.take i ts)).length = t.text.length + (textsOf (List.take i ts)).length := by
+      simp [textsOf]
+    simp only [List.take_succ_cons, List.getElem_cons_succ]
+    rw [e, ← Nat.add_assoc]
+    exact this
+
+/-- longest match: an operator token is a spelling of the table and no longer spelling is a prefix of the rest of
+the input from the token's start -/
+theorem lex_longest_match (cc : CharClass) (hcc : cc.Sane2) (s : List Char) (toks : List LexerToken)
+    (h : lex cc s = .ok toks) (i : Nat) (hi : i < toks.length) (hop : isOpType toks[i].tokenType = true) :
+    (toks[i].text, toks[i].tokenType) ∈ Garnish.Gen.LexTables.operatorChars ∧
+    ∀ sp ty, (sp, ty) ∈ Garnish.Gen.LexTables.operatorChars → toks[i].text.length < sp.length →
+      ¬ sp <+: s.drop (textsOf (toks.take i)).length := by
+  have hf := lex_final cc hcc s toks h
+  have hf2 := lex_final2 cc hcc s toks h
+  obtain ⟨node, hw, hnty⟩ := (hf2.toksOk toks[i] (List.getElem_mem hi)).op hop
+  refine ⟨tree_sound _ node _ hw hnty, ?_⟩
+  intro sp ty hsp hlen hpre
+  -- the input from the token's start is the token's text followed by the rest
+  have ht : toks = toks.take i ++ toks[i] :: toks.drop (i + 1) := by
+    rw [← List.drop_eq_getElem_cons hi, List.take_append_drop]
+  have hs : s = textsOf (toks.take i) ++ (toks[i].text ++ textsOf (toks.drop (i + 1))) :=
+    calc s = textsOf toks := hf.lossless.symm
+      _ = textsOf (toks.take i ++ toks[i] :: toks.drop (i + 1)) := congrArg textsOf ht
+      _ = _ := by simp only [textsOf, List.map_append, List.map_cons, List.flatten_append, List.flatten_cons]
+  have hdrop : s.drop (textsOf (toks.take i)).length = toks[i].text ++ textsOf (toks.drop (i + 1)) := by
+    conv => lhs; rw [hs]
+    simp
+  rw [hdrop] at hpre
+  obtain ⟨r, hr⟩ := hpre
+  -- `sp` is longer than the text, so it extends it by at least one character
+  rcases List.append_eq_append_iff.mp hr with ⟨k, hk1, hk2⟩ | ⟨k, hk1, hk2⟩
+  · -- text = sp ++ k : impossible, sp is longer
+    have : toks[i].text.length = sp.length + k.length := by rw [hk1]; simp
+    omega
+  · cases k with
+    | nil => simp at hk1; rw [hk1] at hlen; omega
+    | cons d k' =>
+      -- the next character of the input is `d`
+      have hnext : s[0 + (textsOf (toks.take i)).length + toks[i].text.length]? = some d := by
+        have hs' : s = (textsOf (toks.take i) ++ toks[i].text) ++ (d :: (k' ++ r)) := by
+          rw [hs, hk2]; simp
+        rw [hs', List.getElem?_append_right (by simp)]
+        simp
+      rcases OpEndFrom_get s 0 toks hf2.opEnd i hi hop with ⟨d', hd', hnone⟩ | hend
+      · rw [hnext] at hd'
+        simp only [Option.some.injEq] at hd'
+        subst hd'
+        obtain ⟨m, hm⟩ := table_prefix_path sp ty (toks[i].text ++ [d]) k' hsp (by rw [hk1]; simp)
+        rw [hm] at hnone; cases hnone
+      · have hl := congrArg List.length hs
+        simp only [List.length_append] at hl
+        have hl2 := congrArg List.length hk2
+        simp only [List.length_append, List.length_cons] at hl2
+        omega
+
+/-- greedy without backtracking, exactly: in the Operator state, when the characters read so far are a path of the
+tree without a token type (a proper prefix of spellings only, e.g. `>.` or `?`), and the next character neither
+continues a path nor triggers one of the two documented switches (`_`-prefixed identifier, `.digit` float), then
+`process_char` records the error "No token" — the lexer does not fall back to a shorter spelling -/
+theorem processChar_no_backtracking (cc : CharClass) (σ : Lexer) (c : Char) (hs : σ.state = .operator)
+    (hty : σ.currentTokenType = none)
+    (hpath : walkOperator σ.operatorTree (σ.currentCharacters ++ [c]) = none)
+    (hident : ¬(startsWith (σ.currentCharacters ++ [c]) '_' = true ∧ isIdentifier cc (σ.currentCharacters ++ [c]) = true))
+    (hfloat : ¬(startsWith (σ.currentCharacters ++ [c]) '.' = true ∧ utf8Len (σ.currentCharacters ++ [c]) = 2 ∧
+                cc.isNumeric c = true ∧ σ.canFloat = true)) :
+    ∃ σ1, processChar cc σ c = .ok (σ1, none) ∧ σ1.result = .err := by
+  have h1 : (startsWith (push σ.currentCharacters c) '_' && isIdentifier cc (push σ.currentCharacters c)) = false := by
+    simpa [push] using hident
+  have h2 : (startsWith (push σ.currentCharacters c) '.' && utf8Len (push σ.currentCharacters c) == 2
+      && cc.isNumeric c && σ.canFloat) = false := by
+    simp only [push, Bool.and_eq_false_iff, beq_eq_false_iff_ne, ne_eq]
+    simp only [not_and, Bool.not_eq_true] at hfloat
+    by_cases a : startsWith (σ.currentCharacters ++ [c]) '.' = true
+    · by_cases b : utf8Len (σ.currentCharacters ++ [c]) = 2
+      · by_cases d : cc.isNumeric c = true
+        · exact Or.inr (hfloat a b d)
+        · exact Or.inl (Or.inr (by simpa using d))
+      · exact Or.inl (Or.inl (Or.inr b))
+    · exact Or.inl (Or.inl (Or.inl (by simpa using a)))
+  simp only [processChar, stateStep, hs, Step.ofPair, armOperator, currentOperator, push, hpath]
+  simp only [push] at h1 h2
+  simp only [h1, h2, Bool.false_eq_true, ↓reduceIte, finishChar, pushNewToken, canCreateValidToken, hty, pop_append_singleton]
+  simp [hs, LexResult.isOk]
+
 end Garnish.Model.Lexer
